@@ -129,6 +129,20 @@ theorem stream_roundtrip {σ : Type} {K : Core σ} {M : Nat} {ks : Nat → Bytes
   rw [e2, hl, ← hq, e1]
   exact xorB_cancel_right data _ (by simp)
 
+/-- **the consuming core-level one-shot** `try_apply_keystream_partial` (CTR ×6, BelT-CTR, OFB): two cores at the same block
+    position — the second undoes the first, any byte length, any two backend widths; the length is preserved. -/
+theorem partial_roundtrip {σ : Type} {K : Core σ} {M : Nat} {ks : Nat → Bytes} {Rep : σ → Nat → Prop}
+    (hK : CoreSpec K M ks Rep) (w₁ w₂ : Nat) (s₁ s₂ : σ) (blk : Nat) (h₁ : Rep s₁ blk) (h₂ : Rep s₂ blk) (data : Bytes)
+    (hfit : M = 0 ∨ blk + (data.length + K.bs - 1) / K.bs < M) :
+    applyPartialUnchecked K w₂ s₂ (applyPartialUnchecked K w₁ s₁ data) = data ∧
+    (applyPartialUnchecked K w₁ s₁ data).length = data.length := by
+  have e1 := applyPartial_spec hK w₁ s₁ blk h₁ data hfit
+  have hl : (applyPartialUnchecked K w₁ s₁ data).length = data.length := by rw [e1]; simp
+  have e2 := applyPartial_spec hK w₂ s₂ blk h₂ (applyPartialUnchecked K w₁ s₁ data) (by rw [hl]; exact hfit)
+  refine ⟨?_, hl⟩
+  rw [e2, hl, e1]
+  exact xorB_cancel_right data _ (by simp)
+
 /-! ### padded (PKCS#7) -/
 
 /-- the generic statement is `Glue.padded_roundtrip` (any block mode whose decrypt fold inverts its encrypt fold);
